@@ -169,12 +169,117 @@ theorem adopted_eq_metas (fs : FS) : adopted fs = (metas fs).map (·.1) := by
   | nil => rfl
   | cons a l ih => simpa using ih
 
+/-! ### termination of the record search -/
+
+theorem mem_insertQ {x y : SM × Nat} : ∀ {l : List (SM × Nat)}, y ∈ insertQ x l ↔ y = x ∨ y ∈ l := by
+  intro l
+  induction l with
+  | nil => simp [insertQ]
+  | cons z l ih =>
+    unfold insertQ
+    split
+    · simp
+    · simp only [List.mem_cons, ih]
+      constructor
+      · rintro (h | h | h)
+        · exact Or.inr (Or.inl h)
+        · exact Or.inl h
+        · exact Or.inr (Or.inr h)
+      · rintro (h | h | h)
+        · exact Or.inr (Or.inl h)
+        · exact Or.inl h
+        · exact Or.inr (Or.inr h)
+
+theorem mem_sortQ {y : SM × Nat} : ∀ {l : List (SM × Nat)}, y ∈ sortQ l ↔ y ∈ l := by
+  intro l
+  induction l with
+  | nil => simp [sortQ]
+  | cons z l ih =>
+    show y ∈ insertQ z (sortQ l) ↔ _
+    rw [mem_insertQ, ih]; simp
+
+theorem length_insertQ (x : SM × Nat) : ∀ (l : List (SM × Nat)), (insertQ x l).length = l.length + 1 := by
+  intro l
+  induction l with
+  | nil => rfl
+  | cons z l ih =>
+    unfold insertQ
+    split
+    · rfl
+    · simp [ih]
+
+/-- once every remaining request advertises a start at most `c`, the later cut-offs stay at most `c` -/
+theorem lastCutoff_le_start : ∀ (fuel : Nat) (l : List SM) (c : Nat), (∀ x ∈ l, x.lo ≤ c) → lastCutoff fuel l c ≤ c := by
+  intro fuel
+  induction fuel with
+  | zero => intro l c _; simp [lastCutoff]
+  | succ n ih =>
+    intro l c hl
+    cases l with
+    | nil => simp [lastCutoff]
+    | cons F rest =>
+      unfold lastCutoff
+      have h1 := ih ((F :: rest).filter (fun x => !(decide (F.lo ≤ x.lo)))) F.lo (by
+        intro x hx
+        have := (List.mem_filter.1 hx).2
+        simp only [Bool.not_eq_true', decide_eq_false_iff_not] at this
+        omega)
+      have h2 := hl F (List.mem_cons_self ..)
+      omega
+
+/-- with enough rounds the last cut-off is at most the advertised start of EVERY request -/
+theorem lastCutoff_le : ∀ (fuel : Nat) (l : List SM) (c : Nat), l.length ≤ fuel → ∀ m ∈ l, lastCutoff fuel l c ≤ m.lo := by
+  intro fuel
+  induction fuel with
+  | zero =>
+    intro l c hl m hm
+    cases l with
+    | nil => cases hm
+    | cons a t => simp at hl
+  | succ n ih =>
+    intro l c hl m hm
+    cases l with
+    | nil => cases hm
+    | cons F rest =>
+      unfold lastCutoff
+      have hlen : ((F :: rest).filter (fun x => !(decide (F.lo ≤ x.lo)))).length ≤ n := by
+        have : ((F :: rest).filter (fun x => !(decide (F.lo ≤ x.lo)))).length ≤ rest.length := by
+          have e : (F :: rest).filter (fun x => !(decide (F.lo ≤ x.lo))) = rest.filter (fun x => !(decide (F.lo ≤ x.lo))) := by
+            simp [List.filter_cons]
+          rw [e]
+          exact List.length_filter_le _ _
+        simp only [List.length_cons] at hl
+        omega
+      by_cases hm2 : F.lo ≤ m.lo
+      · have := lastCutoff_le_start n ((F :: rest).filter (fun x => !(decide (F.lo ≤ x.lo)))) F.lo (by
+          intro x hx
+          have := (List.mem_filter.1 hx).2
+          simp only [Bool.not_eq_true', decide_eq_false_iff_not] at this
+          omega)
+        omega
+      · exact ih _ F.lo hlen m (List.mem_filter.2 ⟨hm, by simpa using hm2⟩)
+
+theorem nodup_flatMap_unique {α β : Type} {g : α → List β} : ∀ {l : List α}, (l.flatMap g).Nodup →
+    ∀ {a b : α}, a ∈ l → b ∈ l → ∀ {x : β}, x ∈ g a → x ∈ g b → a = b := by
+  intro l
+  induction l with
+  | nil => intro _ a b ha; cases ha
+  | cons c l ih =>
+    intro hn a b ha hb x hxa hxb
+    rw [List.flatMap_cons, List.nodup_append] at hn
+    rcases List.mem_cons.1 ha with rfl | ha' <;> rcases List.mem_cons.1 hb with rfl | hb'
+    · rfl
+    · exact absurd rfl (hn.2.2 x hxa x (List.mem_flatMap.2 ⟨b, hb', hxb⟩))
+    · exact absurd rfl (hn.2.2 x hxb x (List.mem_flatMap.2 ⟨a, ha', hxa⟩))
+    · exact ih hn.2.1 ha' hb' hxa hxb
+
+theorem visible_eq_metas (fs : FS) : visible fs = (metas fs).flatMap (fun p => segVisible (fs.seg p.1)) := by
+  unfold visible; rw [adopted_eq_metas, flatMap_map']
+
 /-- whatever rule builds the metadata: a search reads a sub-list of the blocks the match-all search serves -/
 theorem searchFlushesWith_sublist (mf : Evs → List Nat → SM) (evs : Evs) (fs : FS) (q : Query) :
     (searchFlushesWith mf evs fs q).Sublist (visible fs) := by
-  have hv : visible fs = (metas fs).flatMap (fun p => segVisible (fs.seg p.1)) := by
-    unfold visible; rw [adopted_eq_metas, flatMap_map']
-  rw [hv]
+  rw [visible_eq_metas]
   unfold searchFlushesWith
   simp only []
   apply sublist_flatMap
@@ -182,5 +287,35 @@ theorem searchFlushesWith_sublist (mf : Evs → List Nat → SM) (evs : Evs) (fs
   split
   · exact List.filter_sublist
   · exact List.nil_sublist _
+
+/-- what membership in the list of blocks read gives back -/
+theorem mem_searchFlushesWith_elim {mf : Evs → List Nat → SM} {evs : Evs} {fs : FS} {q : Query} {f : Nat}
+    (h : f ∈ searchFlushesWith mf evs fs q) :
+    ∃ p ∈ metas fs, rangePass (mf evs p.2) q = true ∧ f ∈ segVisible (fs.seg p.1) := by
+  unfold searchFlushesWith at h
+  simp only [] at h
+  rcases List.mem_flatMap.1 h with ⟨p, hp, hf⟩
+  split at hf
+  · rename_i hc
+    simp only [Bool.and_eq_true] at hc
+    exact ⟨p, hp, hc.1, (List.mem_filter.1 hf).1⟩
+  · cases hf
+
+/-- no record is stuck when every record found lies at or above the advertised start of a request of the search -/
+theorem stuckWith_nil_of {mf : Evs → List Nat → SM} {evs : Evs} {fs : FS} {q : Query}
+    (H : ∀ e ∈ searchWith mf evs fs q, ∃ p ∈ metas fs, rangePass (mf evs p.2) q = true ∧ (mf evs p.2).lo ≤ e.ts) :
+    stuckWith mf evs fs q = [] := by
+  unfold stuckWith
+  simp only []
+  rw [List.filter_eq_nil_iff]
+  intro e he
+  rcases H e he with ⟨p, hp, hr, hlo⟩
+  have hmem : mf evs p.2 ∈ (sortQ (((metas fs).filter (fun p => rangePass (mf evs p.2) q)).map (fun p => (mf evs p.2, p.1)))).map (·.1) := by
+    refine List.mem_map.2 ⟨(mf evs p.2, p.1), ?_, rfl⟩
+    rw [mem_sortQ]
+    exact List.mem_map.2 ⟨p, List.mem_filter.2 ⟨hp, hr⟩, rfl⟩
+  have := lastCutoff_le _ _ 0 (Nat.le_refl _) _ hmem
+  simp only [decide_eq_true_eq]
+  omega
 
 end SigModel.Lemmas.C07
